@@ -272,6 +272,11 @@ def main(tier, seed):
         ('bitmap-m2', 'struct', bv, dict(nsub=2, vmap=[0, 1], compiled=True), 0),
         ('bitmap-m2-rev', 'struct', bv, dict(nsub=2, vmap=[1, 0]), 0),
         ('bitmap-m3', 'struct', bv, dict(nsub=3, vmap=[0, 1, 0]), 0),
+        # nested delayed replications with different counts per subset; among them pairs of subsets whose expanded
+        # descriptor lists coincide although their structures differ
+        ('nested-delayed-m2', 'struct', list(BM.nested_delayed(2, 2, 1 if tier == 'quick' else 2, 2)),
+         dict(nsub=2, vmap=[0, 1], compiled=True), 0),
+        ('nested-delayed-m3', 'struct', list(BM.nested_delayed(2, 2, 1, 3, colliding_only=True)), dict(nsub=3, vmap=[0, 1, 2]), 0),
     ]
     if tier == 'thorough':
         plan += [('G-m3', 'tree', CC.template_pool(tier, k=1, c=1, nested=True), dict(nsub=3), 1),
